@@ -10,6 +10,7 @@ import (
 	"net/netip"
 	"strings"
 	"sync"
+	"sync/atomic"
 	"unsafe"
 
 	"github.com/mycoria/mycoria/frame"
@@ -635,7 +636,39 @@ func (w *world) opRelease() {
 	if len(w.live) == 0 {
 		return
 	}
+	w.releaseAt(w.r.IntN(len(w.live)))
+}
+
+// opReplyBad turns a live frame into a reply the builder must refuse (a message no buffer can hold); the caller
+// then gives the frame up, as the handshake code does. Nothing of that may show in later frames, and the frame's
+// buffer must go back to the pool exactly once.
+func (w *world) opReplyBad() {
+	if len(w.live) == 0 {
+		return
+	}
 	i := w.r.IntN(len(w.live))
+	s := w.live[i]
+	n := 66000 + w.r.IntN(30000)
+	w.trace = append(w.trace, fmt.Sprintf("#%d.reply-refused(msg=%d)", s.id, n))
+	var err error
+	var panicked any
+	func() {
+		defer func() { panicked = recover() }()
+		err = s.f.Reply(nil, make([]byte, n), nil)
+	}()
+	if panicked != nil {
+		w.fail("reply-panicked", fmt.Sprintf("Reply with a %d-byte message panicked: %v", n, panicked))
+		return
+	}
+	if err == nil {
+		w.fail("oversized-reply-accepted", fmt.Sprintf("Reply accepted a %d-byte message", n))
+		return
+	}
+	w.res.Count("oversized_replies_refused", 1)
+	w.releaseAt(i)
+}
+
+func (w *world) releaseAt(i int) {
 	s := w.live[i]
 	w.trace = append(w.trace, fmt.Sprintf("#%d.release", s.id))
 	// Remember what must never reappear: every tag this frame's buffer held,
@@ -740,6 +773,8 @@ func (w *world) runSequence(nops int, changeMargins bool) {
 				w.opParseBad()
 			case k < 35:
 				w.opNewBad()
+			case k < 37:
+				w.opReplyBad()
 			case k < 48:
 				w.opClone()
 			case k < 58:
@@ -776,6 +811,75 @@ func (w *world) runSequence(nops int, changeMargins bool) {
 	}
 }
 
+// pipeline: frames are built by some goroutines and checked and released by others (the link reader builds, a
+// handler worker releases), all on one builder, so released buffers are picked up by another goroutine at once.
+// A frame's content must be what its builder wrote when the releasing side looks at it.
+func pipeline(res *core.Result, r *rand.Rand, frames int, keyPrefix string) {
+	b := frame.NewFrameBuilder()
+	b.SetFrameMargins(12, 16)
+	type item struct {
+		f    *frame.FrameV1
+		id   uint32
+		size int
+	}
+	ch := make(chan item, 8)
+	var wg, cons sync.WaitGroup
+	var bad atomic.Int64
+	var firstBad atomic.Value
+	src, dst := netip.MustParseAddr("fd10::1"), netip.MustParseAddr("fd20::2")
+	fill := func(buf []byte, id uint32) {
+		for i := range buf {
+			buf[i] = byte(id) ^ byte(i*7) | 1
+		}
+	}
+	const producers = 3
+	for g := 0; g < producers; g++ {
+		wg.Add(1)
+		seed := r.Uint64()
+		go func(g int) {
+			defer wg.Done()
+			rr := rand.New(rand.NewPCG(seed, uint64(g)))
+			for k := 0; k < frames/producers; k++ {
+				size := []int{40, 500, 560, 1500, 4000, 9000}[rr.IntN(6)] + rr.IntN(30)
+				msg := make([]byte, size)
+				id := uint32(g)<<24 | uint32(k)
+				fill(msg, id)
+				f, err := b.NewFrameV1(src, dst, frame.SessionData, nil, msg, nil)
+				if err != nil {
+					continue
+				}
+				ch <- item{f, id, size}
+			}
+		}(g)
+	}
+	for g := 0; g < 3; g++ {
+		cons.Add(1)
+		go func() {
+			defer cons.Done()
+			want := make([]byte, 0, 10000)
+			for it := range ch {
+				want = want[:it.size]
+				fill(want, it.id)
+				if got := it.f.MessageData(); !bytes.Equal(got, want) {
+					if bad.Add(1) == 1 {
+						firstBad.Store(fmt.Sprintf("frame %08x (%d-byte message): content differs from what its builder wrote (first bytes % x, want % x)", it.id, it.size, got[:min(8, len(got))], want[:8]))
+					}
+				}
+				it.f.ReturnToPool()
+			}
+		}()
+	}
+	wg.Wait()
+	close(ch)
+	cons.Wait()
+	if bad.Load() > 0 {
+		res.Violate("live-frame-changed:pipeline", fmt.Sprintf("%d frames handed from a building goroutine to a releasing goroutine on a shared builder arrived changed: %v", bad.Load(), firstBad.Load()), map[string]any{"case_id": "pipeline"})
+		return
+	}
+	res.Count("pipeline_frames_checked", int64(frames))
+	res.Case(fmt.Sprintf("%spipeline|%x", keyPrefix, r.Uint64()), true)
+}
+
 func parallel(n int, fn func(w int)) {
 	var wg sync.WaitGroup
 	for w := 0; w < n; w++ {
@@ -788,6 +892,9 @@ func parallel(n int, fn func(w int)) {
 func run(c *core.Ctx) {
 	res := c.Res
 	if c.RaceBuild {
+		for i := 0; i < c.Q(6, 60); i++ {
+			pipeline(res, core.RNG(fmt.Sprintf("c17/race/pipeline/%d", i)), 3000, "race:")
+		}
 		// 4 goroutines share one builder; each keeps its own frames and shadow world.
 		rounds := c.Q(40, 600)
 		for round := 0; round < rounds; round++ {
@@ -803,6 +910,9 @@ func run(c *core.Ctx) {
 			})
 		}
 		return
+	}
+	for i := 0; i < c.Q(8, 100); i++ {
+		pipeline(res, core.RNG(fmt.Sprintf("c17/pipeline/%d", i)), 30000, "")
 	}
 	nseq := c.Q(3000, 200000)
 	const W = 16
